@@ -12,7 +12,7 @@ use serde::{Deserialize, Serialize};
 use serde_json::{Value, json};
 use std::collections::VecDeque;
 
-pub const NT: usize = 7;
+pub const NT: usize = 10;
 /// templates 0..NT_SAFE have pairwise unmatchable shapes; template 6 (Feed(1), Mem) partially matches 0 and 1
 pub const NT_SAFE: usize = 6;
 
@@ -25,8 +25,19 @@ const DEFS: [&str; NT] = [
     "fn ve0(c)->(float,float){ let (a,b) = self\n  (a + c, b + 1.0) }\nfn ve(c){ let (a,b) = ve0(c)\n  a + b }",
     "fn vf1(c){ mem(c + now) }\nfn vf2(c){ delay(3.0, c * now, 1.0) }\nfn vf3(c){ vf1(c) }\nfn vf4(c){ vf2(c) }\nfn vf(c){ vf3(c) + vf4(c) }",
     "fn vg(c){ mem(self + c) }",
+    // family H (templates 7, 8, 9; at most one of them in a program): a delay whose source is a stateful
+    // call. 7 -> 8 edits the delay (its length), 7 -> 9 edits the argument; the other site is untouched
+    "fn vh1(c)->(float,float,float){ let (a,b,d) = self\n  (a + c, b + 1.0, d + 2.0) }\nfn vhs(c){ let (a,b,d) = vh1(c)\n  a + b + d }\nfn vh(c){ delay(4.0, vhs(c), 2.0) }",
+    "fn vi(c){ delay(8.0, vhs(c), 2.0) }",
+    "fn vh2(c){ delay(2.0, c * now, 1.0) }\nfn vj(c){ delay(4.0, vh2(c), 2.0) }",
 ];
-const NAMES: [&str; NT] = ["va", "vb", "vc", "vd", "ve", "vf", "vg"];
+const NAMES: [&str; NT] = ["va", "vb", "vc", "vd", "ve", "vf", "vg", "vh", "vi", "vj"];
+/// templates of one family are variants of one voice (an edit of its body); a program holds at most one of them
+pub fn fam(t: usize) -> usize {
+    if t >= 7 { 7 } else { t }
+}
+/// templates that general exploration draws from (6 = vg is kept for a recorded history only)
+pub const POOL: [usize; 9] = [0, 1, 2, 3, 4, 5, 7, 8, 9];
 /// wrapped one call deeper (a different state shape)
 const WRAP_DEFS: [&str; NT] = [
     "fn wva(c){ va(c) }",
@@ -36,6 +47,9 @@ const WRAP_DEFS: [&str; NT] = [
     "fn wve(c){ ve(c) }",
     "fn wvf(c){ vf(c) }",
     "fn wvg(c){ vg(c) }",
+    "fn wvh(c){ vh(c) }",
+    "fn wvi(c){ vi(c) }",
+    "fn wvj(c){ vj(c) }",
 ];
 
 #[derive(Clone, Debug, PartialEq, Serialize, Deserialize)]
@@ -55,6 +69,7 @@ enum Model {
     E { a: f64, b: f64 },
     F { prev: f64, hist: VecDeque<f64> },
     G { self_prev: f64, mem_prev: f64 },
+    H { var: usize, a: f64, b: f64, d: f64, arg_hist: VecDeque<f64>, hist: VecDeque<f64> },
 }
 impl Model {
     fn fresh(t: usize) -> Model {
@@ -65,7 +80,33 @@ impl Model {
             3 => Model::D { hist: VecDeque::new() },
             4 => Model::E { a: 0.0, b: 0.0 },
             5 => Model::F { prev: 0.0, hist: VecDeque::new() },
-            _ => Model::G { self_prev: 0.0, mem_prev: 0.0 },
+            6 => Model::G { self_prev: 0.0, mem_prev: 0.0 },
+            _ => Model::H { var: t - 7, a: 0.0, b: 0.0, d: 0.0, arg_hist: VecDeque::new(), hist: VecDeque::new() },
+        }
+    }
+    /// state of an edited voice (another variant of the same family): the sites the edit left
+    /// untouched keep their state, the edited site starts from zero
+    fn carried_to(&self, t: usize) -> Model {
+        match self {
+            Model::H { var, a, b, d, hist, .. } => {
+                let nv = t - 7;
+                let mut m = Model::fresh(t);
+                if let Model::H { a: na, b: nb, d: nd, hist: nh, .. } = &mut m {
+                    match (*var, nv) {
+                        // delay length edited: the argument's cell survives
+                        (0, 1) | (1, 0) => {
+                            *na = *a;
+                            *nb = *b;
+                            *nd = *d;
+                        }
+                        // argument edited: the delay line survives
+                        (0, 2) | (2, 0) => *nh = hist.clone(),
+                        _ => {}
+                    }
+                }
+                m
+            }
+            _ => Model::fresh(t),
         }
     }
     fn step(&mut self, now: f64, c: f64) -> f64 {
@@ -97,6 +138,17 @@ impl Model {
                 *mem_prev = *self_prev + c;
                 *self_prev = out;
                 out
+            }
+            Model::H { var, a, b, d, arg_hist, hist } => {
+                let src = if *var == 2 {
+                    delay(arg_hist, 2, c * now, 1)
+                } else {
+                    *a += c;
+                    *b += 1.0;
+                    *d += 2.0;
+                    *a + *b + *d
+                };
+                delay(hist, if *var == 1 { 8 } else { 4 }, src, 2)
             }
         }
     }
@@ -282,7 +334,11 @@ pub fn check(c: &Case) -> Checked {
                     // expected continuation: same template (and same wrapping) keeps its state, everything else starts from zero
                     let mut new_models = vec![];
                     for v in voices {
-                        match cur.iter().position(|o| o.t == v.t && o.wrapped == v.wrapped) {
+                        match cur.iter().position(|o| fam(o.t) == fam(v.t) && o.wrapped == v.wrapped) {
+                            Some(i) if cur[i].t != v.t => {
+                                new_models.push(models[i].carried_to(v.t));
+                                res.edit_kinds.push("body-edited/untouched-sites-inside");
+                            }
                             Some(i) => {
                                 new_models.push(models[i].clone());
                                 if (cur[i].c - v.c).abs() > 0.0 {
@@ -297,7 +353,7 @@ pub fn check(c: &Case) -> Checked {
                             }
                         }
                     }
-                    if cur.iter().any(|o| !voices.iter().any(|v| v.t == o.t && v.wrapped == o.wrapped)) {
+                    if cur.iter().any(|o| !voices.iter().any(|v| fam(v.t) == fam(o.t) && v.wrapped == o.wrapped)) {
                         res.edit_kinds.push("deleted");
                     }
                     cur = voices.clone();
@@ -417,10 +473,15 @@ fn rand_const(rng: &mut Rng) -> f64 {
     *rng.pick(&[0.5, 1.0, 2.0, 3.0, 0.25, 1.5, 7.0])
 }
 
-fn rand_voices(rng: &mut Rng, k: usize, pool: usize) -> Vec<Voice> {
-    let mut ts: Vec<usize> = (0..pool).collect();
+fn rand_voices(rng: &mut Rng, k: usize, _pool: usize) -> Vec<Voice> {
+    let mut ts: Vec<usize> = POOL.to_vec();
     rng.shuffle(&mut ts);
-    let mut chosen: Vec<usize> = ts[..k].to_vec();
+    let mut chosen: Vec<usize> = vec![];
+    for t in ts {
+        if chosen.len() < k && !chosen.iter().any(|c| fam(*c) == fam(t)) {
+            chosen.push(t);
+        }
+    }
     chosen.sort(); // voices keep a canonical relative order: edits never reorder survivors
     chosen.into_iter().map(|t| Voice { t, c: rand_const(rng), wrapped: false }).collect()
 }
@@ -428,10 +489,19 @@ fn rand_voices(rng: &mut Rng, k: usize, pool: usize) -> Vec<Voice> {
 /// one random edit of a voice list (never reorders survivors, never duplicates a template)
 fn edit_voices(rng: &mut Rng, cur: &[Voice], pool: usize) -> Vec<Voice> {
     let mut v: Vec<Voice> = cur.to_vec();
-    let absent: Vec<usize> = (0..pool).filter(|t| !v.iter().any(|x| x.t == *t)).collect();
+    let _ = pool;
+    let absent: Vec<usize> = POOL.iter().copied().filter(|t| !v.iter().any(|x| fam(x.t) == fam(*t))).collect();
     for _ in 0..8 {
-        match rng.below(5) {
-            0 if !absent.is_empty() && v.len() < pool => {
+        match rng.below(6) {
+            5 => {
+                // edit the body of a voice: another variant of its family
+                if let Some(i) = v.iter().position(|x| x.t >= 7) {
+                    let others: Vec<usize> = [7usize, 8, 9].into_iter().filter(|t| *t != v[i].t).collect();
+                    v[i].t = *rng.pick(&others);
+                    return v;
+                }
+            }
+            0 if !absent.is_empty() => {
                 // insert an absent template at its canonical position
                 let t = *rng.pick(&absent);
                 let pos = v.iter().position(|x| x.t > t).unwrap_or(v.len());
@@ -478,8 +548,12 @@ fn gen_case(args: &Args, idx: usize, rng: &mut Rng) -> Case {
     // used only in the recorded history findings/C07/fixed/displaced_survivor.json.
     let _ = NT;
     let pool = NT_SAFE;
-    let k = 1 + rng.below(pool.min(5));
-    let initial = rand_voices(rng, k, pool);
+    let k = 1 + rng.below(5);
+    let mut initial = rand_voices(rng, k, pool);
+    // a third of the histories start with a voice of family H (its body is what gets edited)
+    if rng.chance(1, 3) && !initial.iter().any(|v| v.t >= 7) {
+        initial.push(Voice { t: 7 + rng.below(3), c: rand_const(rng), wrapped: false });
+    }
     let mut cur = initial.clone();
     let nedits = 1 + rng.below(4);
     let mut edits = vec![];
@@ -489,7 +563,13 @@ fn gen_case(args: &Args, idx: usize, rng: &mut Rng) -> Case {
         if rng.chance(1, 5) {
             edits.push(Edit::Broken { at, kind: rng.below(4) as u8 });
         } else {
-            let next = edit_voices(rng, &cur, pool);
+            // one edit per swap, or several that accumulated before the next successful compilation
+            let mut next = edit_voices(rng, &cur, pool);
+            if rng.chance(1, 3) {
+                for _ in 0..(1 + rng.below(3)) {
+                    next = edit_voices(rng, &next, pool);
+                }
+            }
             cur = next.clone();
             edits.push(Edit::Swap { at, voices: next });
         }
